@@ -301,6 +301,8 @@ def run_jobs(jobs, seed=0, procs=14, timeout_s=1500):
     """jobs: [(module name, unit-factory name, kwargs)] -> flat list of unit results"""
     get_mir()       # make sure the dump exists before forking
     jobs = [(m, f, k, seed) for (m, f, k) in jobs]
+    if not jobs:
+        return []
     if procs <= 1 or len(jobs) == 1:
         out = []
         for j in jobs:
